@@ -94,6 +94,7 @@ type Ctx struct {
 	usesErrWraps bool
 	ghostFired  map[*GhostStmt]bool
 	privBoxes   map[*ssa.Function][]*ssa.Alloc
+	privSlices  map[*ssa.Function][]*ssa.Alloc
 	skippedAbs  map[int]int // loop ordinal -> obligations not generated because the loop is declared abstract
 	defs        map[string]string
 	paramTerms  []Value
